@@ -11,7 +11,10 @@ NEEDS_EBD = True
 RULE = ("random programs in a small ebuild/eclass dialect (assignments, +=, unset, inherit at arbitrary positions, nested and "
         "repeated inherits up to depth 3, phase functions, EXPORT_FUNCTIONS) for EAPI 0-8, written to cache-less repositories "
         "and regenerated through the real bash daemon; pkg.data is compared with an interpreter of PMS 10.2 accumulation "
-        "(token sets per key; every assignment site uses unique tokens). Non-trivial: the program inherits at least one "
+        "(token sets per key; every assignment site uses unique tokens). Every run first regenerates a directed list of 272 "
+        "small programs (implicit RDEPEND=DEPEND for EAPI 0-3 with RDEPEND absent / empty / set / unset again x own DEPEND x "
+        "eclass contributions; every accumulated variable contributed by two or three eclasses while the others stay empty), "
+        "split over the shards. Non-trivial: the program inherits at least one "
         "eclass that sets an accumulated key or defines a phase; distinct = distinct program text.")
 ASSUMPTIONS = [
     "token sets are compared, not strings (PMS does not fix accumulation order; repeated inherits may duplicate tokens)",
@@ -21,7 +24,7 @@ ASSUMPTIONS = [
 SHARDS = {"quick": 4, "thorough": 16}
 TIMEOUT = {"quick": 300, "thorough": 1800}
 MIN_EVALS = 300
-REQUIRED_COUNTERS = ("programs_regenerated",)
+REQUIRED_COUNTERS = ("programs_regenerated", "directed_programs")
 TECHNIQUE = "runtime monitoring: real daemon metadata regeneration vs PMS accumulation interpreter"
 
 EAPIS = ["0", "1", "2", "3", "4", "5", "6", "7", "8"]
@@ -94,6 +97,49 @@ def used_eclasses(prog):
 
     walk(prog["ebuild"])
     return seen
+
+
+def directed_programs(base_idx):
+    """Small hand-shaped programs around the rules random generation reaches rarely: the EAPI 0-3 implicit
+    RDEPEND=DEPEND rule (RDEPEND absent / explicitly empty / set / unset again), with and without eclass
+    contributions, and every accumulated variable contributed by two and three eclasses in a row while the
+    other accumulated variables stay empty."""
+    progs = []
+
+    def add(eapi, ebuild, eclasses):
+        idx = base_idx + len(progs)
+        ren = {n: "d%d_%s" % (idx, n) for n in eclasses}
+        fix = lambda sts: [["inherit", [ren[x] for x in st[1]]] if st[0] == "inherit" else st for st in sts]
+        progs.append({"eapi": eapi, "ebuild": [["set", "SLOT", "0"]] + fix(ebuild),
+                      "eclasses": {ren[n]: fix(b) for n, b in eclasses.items()}, "cpv": "d%d/p%d-1" % (idx % 5, idx)})
+
+    rdep_states = {"absent": [], "empty": [["set", "RDEPEND", ""]], "set": [["set", "RDEPEND", "dev/r1"]],
+                   "set-then-unset": [["set", "RDEPEND", "dev/r2"], ["unset", "RDEPEND"]],
+                   "empty-after-inherit": None}
+    ecl_variants = {"none": {}, "rdep": {"a": [["set", "RDEPEND", "dev/er1"]]}, "dep": {"a": [["set", "DEPEND", "dev/ed1"]]},
+                    "both": {"a": [["set", "DEPEND", "dev/ed2"], ["set", "RDEPEND", "dev/er2"]]}}
+    for eapi in ("0", "2", "3", "4", "7"):
+        for rname, rst in rdep_states.items():
+            for dep in ([["set", "DEPEND", "dev/d1 dev/d2"]], []):
+                for ename, ecl in ecl_variants.items():
+                    inh = [["inherit", ["a"]]] if ecl else []
+                    if rst is None:
+                        body = dep + inh + [["set", "RDEPEND", ""]]
+                    else:
+                        body = rst + dep + inh
+                    add(eapi, body, ecl)
+    for var in ref.acc_vars("8"):
+        for eapi in ("3", "6", "8"):
+            if var not in ref.acc_vars(eapi) or var not in ref.metadata_keys_for(eapi):
+                continue
+            t = TOKEN_PREFIX[var]
+            two = {"a": [["set", var, t + "1"]], "b": [["set", var, t + "2"]]}
+            add(eapi, [["inherit", ["a", "b"]]], two)
+            add(eapi, [["inherit", ["a"]], ["set", var, t + "0"], ["inherit", ["b"]]], two)
+            add(eapi, [["inherit", ["a"]]], {"a": [["set", var, t + "1"], ["inherit", ["b"]]], "b": [["set", var, t + "2"]],
+                                             })
+            add(eapi, [["inherit", ["a", "b", "c"]]], dict(two, c=[["append", var, t + "3"]]))
+    return progs
 
 
 def write_program(repo, prog):
@@ -192,7 +238,18 @@ def run(ctx):
     batch = 15
     idx = ctx.shard * 100000
     done = 0
+    directed = directed_programs(900000)[ctx.shard::ctx.nshards]
+    if ctx.tier == "quick":
+        # every quick run covers the whole directed list once across its shards (seed-rotated start inside the shard)
+        k = ctx.seed % max(1, len(directed))
+        directed = directed[k:] + directed[:k]
     try:
+        for i in range(0, len(directed), batch):
+            if ctx.out_of_time(25):
+                break
+            chunk = directed[i:i + batch]
+            regen_batch(ctx, chunk, "d%d" % i)
+            ctx.count("directed_programs", len(chunk))
         while done < n and not ctx.out_of_time(25):
             progs = [gen_program(ctx.rng, idx + i) for i in range(batch)]
             idx += batch
